@@ -44,13 +44,22 @@ def type_node(facts, label, kind, **over):
     return struct_val(facts, "ast::Type", label, o)
 
 
+DIAG_FIELDS = {}
+
+
+def register_diag_fields(facts):
+    """field order of diagnostic::Diagnostic / RelatedInfo as defined in the analysed tree"""
+    DIAG_FIELDS["names"] = dict((i, f["name"]) for i, f in enumerate(facts.adt(DIAG)["variants"][0]["fields"]))
+    DIAG_FIELDS["rel_range"] = [f["name"] for f in facts.adt("diagnostic::RelatedInfo")["variants"][0]["fields"]].index("range")
+
+
 def diag_of(effect):
     """summary of a `push` effect of a Diagnostic aggregate: (kind, range label, context const)"""
     v = effect[2]
     if not isinstance(v, AdtVal) or v.ty != DIAG:
         return {"kind": "?", "range": lab(v), "value": repr(v)}
     out = {}
-    names = {0: "kind", 1: "range", 2: "message", 3: "context_message", 4: "hint", 5: "related_infos"}
+    names = DIAG_FIELDS.get("names") or {0: "kind", 1: "range", 2: "message", 3: "context_message", 4: "hint", 5: "related_infos"}
     for i, c in v.fields.items():
         out[names.get(i, str(i))] = c.val
     k = out.get("kind")
@@ -65,7 +74,7 @@ def diag_of(effect):
             if isinstance(rv, AdtVal):
                 # RelatedInfo { range, message }
                 rr = [lab(x.val) for i, x in sorted(rv.fields.items())]
-                rels.append(range_label(rv.fields[0].val))
+                rels.append(range_label(rv.fields[DIAG_FIELDS.get("rel_range", 0)].val))
             else:
                 rels.append(lab(rv))
     ctx = deref_val(out.get("context_message"))
